@@ -88,8 +88,9 @@ CLAIMS['C16'] = {
 CLAIMS['C25'] = {
   'text': 'Proof: RandomFile.put writes exactly the L-byte field buffer at byte offset (n-1)*L, zero-fills only the gap beyond the old end of file, leaves LOF = max(old, n*L) and LOC = n; '
           'RandomFile.get takes the L bytes at (n-1)*L or zeros at/after the end, writes nothing; lof/loc; Files._check_pos raises Bad record number exactly outside 1..2^25. '
-          'Record length, record numbers and file length are unbounded symbolic integers.',
-  'note': _TB + 'The host file is a stand-in of symbolic length with logged accesses (content unmodelled); FieldFile.get_buffer/set_buffer and locks by assumed contract; float rounding of the record number abstracted (C03). One defect found and fixed.',
+          'Record length, record numbers and file length are unbounded symbolic integers. '
+          'Contents byte for byte (concrete record and file lengths on a grid, symbolic file and field bytes, the real FieldFile.get_buffer/set_buffer): after PUT n the file is the old file, zero-extended, with exactly record n replaced, and every GET m returns record m (the bytes PUT for m = n; zeros beyond the end or for the missing tail of a partial record).',
+  'note': _TB + 'In the offset tasks the host file is a stand-in of symbolic length with logged accesses and FieldFile by assumed contract; in the contents tasks lengths are case parameters. Locks by assumed contract; float rounding of the record number abstracted (C03). One defect found and fixed.',
 }
 
 CLAIMS['C37'] = {
